@@ -302,7 +302,24 @@ impl Ingester {
         Ok(())
     }
 
+    /// [`write`](Self::write) on a task of its own, for request handlers.
+    ///
+    /// A handler's future is dropped when its client disconnects. A write abandoned
+    /// half-way - in particular while it runs the threshold flush - would take the
+    /// buffered rows of other, already acknowledged requests with it. The spawned write
+    /// runs to completion whether or not anybody still waits for its result.
+    pub async fn write_detached(self: &Arc<Self>, batch: RecordBatch) -> Result<()> {
+        let this = Arc::clone(self);
+        match tokio::spawn(async move { this.write(batch).await }).await {
+            Ok(result) => result,
+            Err(e) => Err(Error::Internal(format!("write task failed: {e}"))),
+        }
+    }
+
     /// Write metrics to the buffer.
+    ///
+    /// Not cancellation-safe: do not drop the returned future before it completes
+    /// (request handlers use [`write_detached`](Self::write_detached)).
     ///
     /// Ack semantics: this method returns (acks) after the WAL append completes
     /// (buffered file write), NOT after fsync. The data loss window equals the
